@@ -681,6 +681,35 @@ mod verif_bounded_mdk {
             if !matches!(r, Ok(MessageProcessingResult::ApplicationMessage(_))) { panic!("BOUNDED-COUNTEREXAMPLE {label}: scenario [history: {} ; alice sends a message] the {who} bystander cannot read the winner's next message: {:?}", w.log.join(" ; "), r.as_ref().map(|x| format!("{:?}", std::mem::discriminant(x))).map_err(|e| format!("{e:?}").chars().take(80).collect::<String>())); }
         }
     }
+    // C01 "commits ahead of their predecessors ... once every member has been offered the events again until nothing changes any more":
+    // an admin's auto-commit of a member's leave reaches the bystanders BEFORE the leave proposal it commits by reference (both were
+    // created in the same epoch: the order is epoch-causal). Once the proposal and then the commit were offered again, the bystanders
+    // are where the committer is. Scope: one group of 5, one leave, the orders (commit, proposal, commit) and (commit, proposal,
+    // commit, commit), both back ends. Its own test and label: see known_findings.txt if the unchanged tree fails it.
+    #[test]
+    fn commit_delivered_before_the_proposal_it_commits_history() {
+        use crate::messages::MessageProcessingResult;
+        let label = "mdk_backends_bounded.commit_delivered_before_the_proposal_it_commits_history";
+        let mut w = setup();
+        let dk = Keys::generate(); let d = create_test_mdk();
+        let add = w.a.add_members(&w.gid, &[create_key_package_event(&d, &dk)]).unwrap();
+        w.a.merge_pending_commit(&w.gid).unwrap(); w.b.process_message(&add.evolution_event).unwrap();
+        w.deliver(label, "alice adds dave", &add.evolution_event);
+        let wl = d.process_welcome(&nostr::EventId::all_zeros(), &add.welcome_rumors.as_ref().unwrap()[0]).unwrap(); d.accept_welcome(&wl).unwrap();
+        let leave = d.leave_group(&w.gid).unwrap().evolution_event;
+        let ca = match w.a.process_message(&leave) { Ok(MessageProcessingResult::Proposal(u)) => u.evolution_event, other => panic!("harness: the admin did not auto-commit the leave (not a counterexample): {other:?}") };
+        w.a.merge_pending_commit(&w.gid).unwrap();
+        let want = w.a.get_group(&w.gid).unwrap().unwrap().epoch;
+        w.deliver(label, "alice's auto-commit of dave's leave, AHEAD of the leave proposal it commits by reference", &ca);
+        w.deliver(label, "dave's leave proposal", &leave);
+        w.deliver(label, "alice's commit offered again", &ca);
+        w.deliver(label, "alice's commit offered once more", &ca);
+        for (who, f) in [("memory-backed", fp(&w.mem, &w.gid)), ("SQLite-backed", fp(&w.sql, &w.gid))] {
+            if f.epoch != Some(want) || f.members.as_ref().map(|m| m.len()) != Some(4) {
+                panic!("BOUNDED-COUNTEREXAMPLE {label}: scenario [history: {}] the {who} bystander does not follow the committer: expected epoch {want} with 4 members (dave gone) ; got epoch {:?} with {:?} members", w.log.join(" ; "), f.epoch, f.members.as_ref().map(|m| m.len()));
+            }
+        }
+    }
     // C05: a commit that a NON-admin member builds directly with the MLS library (bypassing the client-side admin gate) and that does
     // more than refresh its author's own key -- a group-data rewrite making the author an admin, a removal, an add -- is refused by
     // both bystanders and leaves them exactly as they were. Scope: one hostile member, three crafted commits, each delivered twice.
